@@ -477,5 +477,47 @@ def r8_lazy_fields_single_source(chk: Check) -> None:
     shared.lazy_field_single_writer_rule(chk, "C08.R8", {"specs/openapi/schemas.py:BaseOpenAPISchema.resolver": "self.raw_schema", "specs/openapi/schemas.py:BaseOpenAPISchema.rewritten_components": None}, "the resolver and the rewritten components every reference of an operation is resolved through are derived from the loaded document")
 
 
+def r9_scan_done_flag(chk: Check) -> None:
+    chk.rule("C08.R9", "COMPLETENESS-FLAG(operationId scan): get_operation_by_id runs the full scan of `paths` only while `cache.has_ids_to_definitions` is false; so that flag may read only containers whose EVERY writer is called from the full scan (_populate_operation_id_cache) - a container that is also filled one entry at a time by other lookups (`_id_to_operation` by `schema[path][method]`) makes the flag true after a partial fill, and every other operationId is `not found` for the lifetime of the schema object", floor=2)
+    P = chk.project
+    cls = P.cls("specs/openapi/_cache.py:OperationCache")
+    flag = cls.methods.get("has_ids_to_definitions")
+    if flag is None:
+        raise Undecided("OperationCache.has_ids_to_definitions not found")
+    fields = sorted({x.attr for x in ast.walk(flag.node) if isinstance(x, ast.Attribute) and isinstance(x.value, ast.Name) and x.value.id == "self"})
+    if not fields:
+        chk.undecided("C08.R9", flag, "fields read by the flag", "none found", flag.loc())
+        return
+    user = P.func("specs/openapi/schemas.py:BaseOpenAPISchema.get_operation_by_id")
+    guards = [n for n in walk_body(user.node) if isinstance(n, ast.If) and "has_ids_to_definitions" in unparse(n.test)]
+    chk.decide(True if guards and any(last_attr(c) == "_populate_operation_id_cache" for g_ in guards for s_ in g_.body for c in calls(s_)) else None, "C08.R9", user, "the scan runs while the flag is false", "guard not recognised", user.loc())
+    for fld in fields:
+        writers = []
+        for m in cls.methods.values():
+            for a in walk_body(m.node):
+                tg = a.targets if isinstance(a, ast.Assign) else ([a.target] if isinstance(a, ast.AugAssign) else [])
+                if any(isinstance(t, ast.Subscript) and unparse(t.value) == f"self.{fld}" for t in tg) or (isinstance(a, ast.Expr) and isinstance(a.value, ast.Call) and isinstance(a.value.func, ast.Attribute) and unparse(a.value.func.value) == f"self.{fld}" and a.value.func.attr in ("update", "setdefault", "append", "add")):
+                    writers.append(m)
+        writers = list({w.name: w for w in writers}.values())
+        construct = f"flag field `{fld}` is filled by the full scan only"
+        if not writers:
+            chk.undecided("C08.R9", flag, construct, "no writer method found", flag.loc())
+            continue
+        outside = []
+        for f in P.all_functions():
+            if isinstance(f.node, ast.Lambda) or not f.module.relpath.startswith("specs/openapi/"):
+                continue
+            for c in body_calls(f):
+                if last_attr(c) in {w.name for w in writers} and "cache" in unparse(c.func).lower() and f.name != "_populate_operation_id_cache":
+                    outside.append((f, c))
+        if outside:
+            f, c = outside[0]
+            chk.violation("C08.R9", flag, construct,
+                          f"`{fld}` is also written through `{unparse(c.func)}(...)` in {f.qualname.partition(':')[2]} (one entry per looked-up operation): after `schema[path][method]` of an operation with an operationId the flag is true, the scan is skipped and `get_operation_by_id` / a link to any OTHER operationId fails with OperationNotFound",
+                          flag.loc())
+        else:
+            chk.ok("C08.R9", flag, construct, f"writers: {sorted(w.name for w in writers)}", flag.loc())
+
+
 def rules(tier: str) -> list:  # type: ignore[type-arg]
-    return [r1_scope_pairs, r2_merge_order, r3_constructors, r4_no_drop, r5_yaml, r6_iteration_local_scope, r7_scope_not_held_across_yield, r8_lazy_fields_single_source, rfwd_forwarding]
+    return [r1_scope_pairs, r2_merge_order, r3_constructors, r4_no_drop, r5_yaml, r6_iteration_local_scope, r7_scope_not_held_across_yield, r8_lazy_fields_single_source, r9_scan_done_flag, rfwd_forwarding]
